@@ -9,6 +9,9 @@ CHECKS = {
   "C08": ("Hypothesis + exhaustive small grid vs reference model (blocks_ref), snapshots at yield time",
           "Generated-input search: every generated (items, size, hop, pad, entry point) is compared block by block with a 10-line slice model; a complete small grid is enumerated as well. Gives falsification power over all three hop regimes and tail rules, not a proof.",
           "Trusts Python slicing for the model; bounded sizes (len<=200, size<=9, hop<=size+6).", "3/C08"),
+  "C15": ("exhaustive enumeration of bounded histories + Hypothesis histories vs reference model (mkd_model), state compared through the public API after every step",
+          "All histories up to length 4 (quick) / 5 (thorough) over 27 operations are enumerated against an ordered-groups model; longer random histories over hash-equal key/value spellings and a StrategyDict machine (items == attributes, default selection) add depth. Exhaustive within the bound, sampled beyond.",
+          "Model written from the property text; keys/values compared with ==; StrategyDict default never assigned manually.", "3/C15"),
 }
 NOT_BUILT = "check not built yet in this session (planned in DESIGN.md section 3); no claim is made until it is"
 
